@@ -8,7 +8,7 @@ Fixpoint re_eqb (r s:re) : bool :=
   match r,s with
   | Emp,Emp | Eps,Eps => true
   | At a, At b => N.eqb a b
-  | Cat a b, Cat c d | Alt a b, Alt c d => re_eqb a c && re_eqb b d
+  | Cat a b, Cat c d | Alt a b, Alt c d => if re_eqb a c then re_eqb b d else false
   | Star a, Star b => re_eqb a b
   | _,_ => false end.
 
@@ -16,13 +16,32 @@ Lemma re_eqb_eq r s : re_eqb r s = true -> r = s.
 Proof.
   revert s; induction r; destruct s; cbn; try discriminate; auto.
   - intros H; apply N.eqb_eq in H; congruence.
-  - intros H; apply andb_true_iff in H as [H1 H2]. f_equal; auto.
-  - intros H; apply andb_true_iff in H as [H1 H2]. f_equal; auto.
+  - intros H. destruct (re_eqb r1 s1) eqn:E; [|discriminate]. f_equal; auto.
+  - intros H. destruct (re_eqb r1 s1) eqn:E; [|discriminate]. f_equal; auto.
   - intros H; f_equal; auto.
 Qed.
 
 Definition cat r s := match r,s with Emp,_ | _,Emp => Emp | Eps,x | x,Eps => x | _,_ => Cat r s end.
-Definition alt r s := match r,s with Emp,x | x,Emp => x | _,_ => if re_eqb r s then r else Alt r s end.
+(* alternation modulo associativity, commutativity and idempotence: the alternatives of both
+   sides are collected, sorted by a fixed order and deduplicated. This keeps the set of iterated
+   derivatives finite (Brzozowski). *)
+Definition re_rank (r:re) : N := match r with Emp => 0 | Eps => 1 | At _ => 2 | Cat _ _ => 3 | Alt _ _ => 4 | Star _ => 5 end.
+Fixpoint re_ltb (r s:re) : bool :=
+  match r, s with
+  | At a, At b => N.ltb a b
+  | Cat a b, Cat c d | Alt a b, Alt c d => if re_ltb a c then true else if re_eqb a c then re_ltb b d else false
+  | Star a, Star b => re_ltb a b
+  | _, _ => N.ltb (re_rank r) (re_rank s)
+  end.
+Fixpoint alts (r:re) : list re := match r with Alt a b => alts a ++ alts b | Emp => [] | _ => [r] end.
+Fixpoint ins_re (r:re) (l:list re) : list re :=
+  match l with
+  | [] => [r]
+  | x :: l' => if re_eqb r x then l else if re_ltb r x then r :: l else x :: ins_re r l'
+  end.
+Fixpoint build_alt (l:list re) : re :=
+  match l with [] => Emp | [x] => x | x :: l' => Alt x (build_alt l') end.
+Definition alt r s := build_alt (fold_right ins_re [] (alts r ++ alts s)).
 
 Fixpoint nullable r := match r with
   | Emp => false | Eps => true | At _ => false
@@ -77,14 +96,49 @@ Proof.
       try (inversion H4; subst; rewrite app_nil_r; assumption).
 Qed.
 
+Lemma ins_re_in r l y : In y (ins_re r l) <-> y = r \/ In y l.
+Proof.
+  induction l as [|x l IH]; cbn [ins_re In]; [intuition congruence|].
+  destruct (re_eqb r x) eqn:E.
+  - apply re_eqb_eq in E; subst. cbn [In]. intuition congruence.
+  - destruct (re_ltb r x); cbn [In]; [intuition congruence|]. rewrite IH. intuition congruence.
+Qed.
+Lemma sort_re_in l y : In y (fold_right ins_re [] l) <-> In y l.
+Proof. induction l as [|x l IH]; cbn [fold_right In]; [tauto|]. rewrite ins_re_in, IH. intuition congruence. Qed.
+Lemma mt_build_alt l w : mt (build_alt l) w <-> exists x, In x l /\ mt x w.
+Proof.
+  induction l as [|x l IH].
+  - cbn. split; [inversion 1 | intros (x & [] & _)].
+  - destruct l as [|y l'].
+    + cbn [build_alt]. split; [intros H; exists x; cbn; auto | intros (z & [<-|[]] & H); exact H].
+    + change (build_alt (x :: y :: l')) with (Alt x (build_alt (y :: l'))). split.
+      * intros H. inversion H; subst.
+        -- exists x. cbn; auto.
+        -- apply IH in H3 as (z & Hz & Hm). exists z. split; [right; exact Hz|exact Hm].
+      * intros (z & [<-|Hz] & Hm); [apply MAltL; exact Hm|]. apply MAltR. apply IH. exists z. auto.
+Qed.
+Lemma mt_alts r w : (exists x, In x (alts r) /\ mt x w) <-> mt r w.
+Proof.
+  induction r as [| |a|r1 IH1 r2 IH2|r1 IH1 r2 IH2|r IH]; cbn [alts];
+    try (split; [intros (x & [<-|[]] & H); exact H | intros H; eexists; split; [left; reflexivity|exact H]]).
+  - split; [intros (x & [] & _) | inversion 1].
+  - split.
+    + intros (x & Hx & Hm). apply in_app_iff in Hx as [Hx|Hx].
+      * apply MAltL. apply IH1. eauto.
+      * apply MAltR. apply IH2. eauto.
+    + intros H. inversion H; subst.
+      * apply IH1 in H3 as (x & Hx & Hm). exists x. split; [apply in_app_iff; auto|exact Hm].
+      * apply IH2 in H3 as (x & Hx & Hm). exists x. split; [apply in_app_iff; auto|exact Hm].
+Qed.
 Lemma mt_alt r s w : mt (alt r s) w <-> mt (Alt r s) w.
 Proof.
-  assert (G: forall r s, mt (if re_eqb r s then r else Alt r s) w <-> mt (Alt r s) w).
-  { intros r0 s0. destruct (re_eqb r0 s0) eqn:E; [|tauto].
-    apply re_eqb_eq in E; subst. split; [apply MAltL | inversion 1; auto]. }
-  destruct r, s; cbn [alt]; try apply G;
-    (split; [ intros H; first [apply MAltL; exact H | apply MAltR; exact H]
-            | intros H; inversion H; subst; auto; match goal with X : mt Emp _ |- _ => inversion X end ]).
+  unfold alt. rewrite mt_build_alt. split.
+  - intros (x & Hx & Hm). rewrite sort_re_in in Hx. apply in_app_iff in Hx as [Hx|Hx].
+    + apply MAltL. apply mt_alts. eauto.
+    + apply MAltR. apply mt_alts. eauto.
+  - intros H. inversion H; subst.
+    + apply mt_alts in H3 as (x & Hx & Hm). exists x. split; [rewrite sort_re_in; apply in_app_iff; auto|exact Hm].
+    + apply mt_alts in H3 as (x & Hx & Hm). exists x. split; [rewrite sort_re_in; apply in_app_iff; auto|exact Hm].
 Qed.
 
 Lemma mt_Cat_inv r s w : mt (Cat r s) w -> exists u v, w = u ++ v /\ mt r u /\ mt s v.
